@@ -59,12 +59,15 @@ Newest(n) == IF DefRevs(n) = {} THEN Err
 LiveBefore(h, n) == LET D == {r \in 1..Len(h) : h[r].ops[n] # "keep"} IN
                     D # {} /\ h[Max(D)].ops[n] # "free"
 
-\* a legal next revision: frees only live objects, packs only under an xref stream,
+HolesAllowed == TRUE
+\* a legal next revision: frees live objects (or lists holes), packs only under an xref stream,
 \* mentions at least one object
 LegalRev(h, rv) ==
     /\ rv.kind \in {"table", "stream"}
     /\ \A n \in Obj : rv.ops[n] \in Ops
-    /\ \A n \in Obj : rv.ops[n] = "free" => LiveBefore(h, n)
+    \* (a free entry may also name a number that is not live: a hole listed as free in the base revision, or a number freed
+    \* again - a later revision can still take the number into use)
+    /\ \A n \in Obj : rv.ops[n] = "free" => (LiveBefore(h, n) \/ HolesAllowed)
     /\ \A n \in Obj : rv.ops[n] = "instm" => rv.kind = "stream"
     /\ \E n \in Obj : rv.ops[n] # "keep"
     \* the length holder LH (object N+1, value = the common stream body length) is
